@@ -125,8 +125,9 @@ def verify_arnoldi(ctx, A, v, v0, m, out, ncalls, detail, s=False):
     # independent reference basis) is below 1e6; the bound grows like 1e-14 / min_residual^2 resp. 1e-14 * cond beyond that
     if kk >= 1:
         mr = 1.0 if kk == 1 else min(min(res[:kk - 1]), 1.0)
-        tol_o = max(1e-8, 1e-14 / mr ** 2, 1e-14 * kr.basis_condition(A, v0, Qref, min(kk, Qref.shape[1] + 1)))
-        if tol_o <= 1e-4:
+        # (the earlier heuristic 1e-14 / min_residual^2 was dropped in favour of the bound itself: it excused everything on graded matrices)
+        tol_o = max(1e-8, 1e-13 * kr.basis_condition(A, v0, Qref, min(kk, Qref.shape[1] + 1)))
+        if tol_o <= 1e-3:
             ctx.close('arnoldi.orthonormal', np.abs(V[:, :kk].conj().T @ V[:, :kk] - np.identity(kk)).max(), tol_o, 'V^H V != I', detail, s)
             ctx.close('arnoldi.projection', np.abs(V[:, :kk].conj().T @ A @ V[:, :kk] - H[:kk, :kk]).max() / nA, tol_o, 'V^H A V != H', detail, s)
         else:
@@ -183,7 +184,15 @@ def large_case(ctx, idx, rng):
     ctx.case(('lanczos', 'large-n', 'm>32' if m > 32 else 'm<=32', spectrum, start, 'complex' if cplx else 'real'), sample={'n': n, 'm': m, 'spectrum': spectrum, 'start': start})
     check_lanczos(ctx, A, v, m)
     G = rng.normal(size=(n, n)) + (1j * rng.normal(size=(n, n)) if cplx else 0)
-    ctx.case(('arnoldi', 'large-n', 'general', 'complex' if cplx else 'real'), sample={'n': n, 'm': m})
+    gk = 'general'
+    if idx % 4 == 1:
+        # two-sided graded matrix D G D with D = 10^-linspace(0, p, n): a full-dimensional Krylov space whose basis is moderately ill conditioned
+        # (condition 1e4 .. 1e8) -- the regime where classical and modified Gram-Schmidt differ by orders of magnitude
+        Dg = 10.0 ** -np.linspace(0, float(rng.uniform(4, 8)), n)
+        G = (Dg[:, None] * G) * Dg[None, :] * np.sqrt(n)
+        m = int(rng.integers(min(25, n), min(n, 60) + 1))
+        gk = 'graded'
+    ctx.case(('arnoldi', 'large-n', gk, 'complex' if cplx else 'real'), sample={'n': n, 'm': m})
     check_arnoldi(ctx, G / np.sqrt(n), v, m)
 
 
